@@ -512,6 +512,10 @@ class ExprMixin(object):
     for s, c in self.resolve(st, container):
       if isinstance(c, VRef) and c.cls in ('dict', 'set'):
         out.append((s, VBool(self.dict_has(s, c, item))))
+      elif isinstance(c, VRef) and c.cls == 'list' and self.oid_of(c) is not None and (self.oid_of(c), '$keys_of') in s.pyheap and \
+          s.pyheap[(self.oid_of(c), '$keys_of')][2].eq(self.list_len(s, c)) and s.pyheap[(self.oid_of(c), '$keys_of')][3].eq(self.list_items(s, c)):
+        dom, kk = s.pyheap[(self.oid_of(c), '$keys_of')][:2]
+        out.append((s, VBool(z3.Select(dom, self.to_val(s, item)))))
       elif isinstance(c, VRef) and c.cls in ('list', 'tuple'):
         vals = self.list_values(s, c)
         if vals is not None:
